@@ -8,6 +8,7 @@ def run(tier):
     # seed dependence of the stored IVs: iv[0] = SHA1(seed), iv[j] = SHA1(iv[j-1]) is part of the format obligation (here without the binding check)
     for sl in ((5, 20, 256, 300) if tier == 'quick' else (0, 1, 5, 20, 55, 56, 64, 100, 255, 256, 257, 300, 520)):
         e2e_ob(r, 'iv-chain-seed%d' % sl, 3, 20, 2, 0, 1, extra=['SEEDLEN=%d' % sl], timeout=900)
+    e2e_ob(r, 'iv-chain-seed-with-high-bytes', 3, 20, 2, 0, 1, extra=['SEEDLEN=13', 'SEEDFIX'], timeout=900)
     r.bounds = ['T in {2,3}, one chunk per stream, CTR/OFB and the other non-ECB modes; seeds of the listed lengths, contents symbolic']
     r.outside = ['A-SHA: SHA-1 has no collisions / short cycles, so the chained IV slots differ and depend on the seed - not a solver claim']
     r.assumptions = ['A-SHA', 'as C01']
